@@ -56,11 +56,16 @@ Load == /\ Is("Load")
                    ELSE UNCHANGED <<cache, cachedAt>>
         /\ UNCHANGED <<file, mtime, clock, writer, seq>>
 
+\* a loader created now (a restart, another process) reads the file itself
+Observe == /\ Is("Observe")
+           /\ bad' = IF Ev.res = S!Want THEN bad ELSE Note("wrong-content-for-new-loader", S!Want, Ev.res)
+           /\ UNCHANGED <<file, mtime, clock, writer, cache, cachedAt, seq>>
+
 Finish == /\ i = Len(Trace) + 1 /\ i' = i + 1
           /\ ndJsonSerialize(IOEnv.VERIF_OUT, bad)
           /\ UNCHANGED <<file, mtime, clock, writer, cache, cachedAt, seq, bad>>
 
-Next == Reset \/ Tick \/ Store \/ Crash \/ Load \/ Finish
+Next == Reset \/ Tick \/ Store \/ Crash \/ Load \/ Observe \/ Finish
 Spec == Init /\ [][Next]_vars
 \* every line consumed (plus the Finish step): diameter = Len(Trace) + 2
 TraceAccepted == TLCGet("stats").diameter = Len(Trace) + 2
